@@ -11,7 +11,7 @@ DESIGN_REF = '3.16'
 CHUNK = 250
 RULE = ('each run = one source of length 0..6 (list, range, generator, one-shot iterator, hand-written iterator class; async generator '
         'for to_sync_iter) with elements from {None, 0, "", 1, 1, False, "x", 2} (duplicates and falsy values), a failure at a '
-        'random position or none, per-step virtual delays from a grid, consumer faster or slower than the producer; one seeded '
+        'random position or none, per-step virtual delays from a grid, consumer faster or slower than the producer; on a caller-supplied loop the first to_sync_iter iteration may be abandoned (break + close) after k elements and is followed by a complete second iteration on the same loop; one seeded '
         'schedule with pre-emption at every line of aiuti/asyncio.py between the consuming loop/thread and the producer thread. '
         'Oracles: consumed sequence == source prefix (types and values); terminal exception is the source\'s own object; a further '
         'pull says Stop(Async)Iteration; for iterators under to_async_iter a ticker task on the same loop never sees a gap larger '
